@@ -144,6 +144,37 @@ def run(ctx):
             e += ["--action", rng.choice(["mask", "none", "lowercase", "retain"])] if "--times" not in e else ["--action", rng.choice(["mask", "none"])]
         return e
     pipeprop.indexed_sweep(ctx, oracle, 60, 1500, extras)
+    # occurrences with a net insertion or deletion (aligned read bases != aligned adapter bases) for every 5'/3' adapter type, `rightmost` included:
+    # the coordinates in the row must be those of the stretch of the *read*
+    rng = ctx.rng
+    cases = []
+    for _ in range(ctx.scale(40, 600)):
+        ad = pipe.rs(rng, rng.randint(11, 14))
+        flag, spec = rng.choice([("-g", ad + ";rightmost"), ("-g", ad + ";rightmost"), ("-g", ad), ("-a", ad), ("-b", ad), ("-g", "^" + ad), ("-a", ad + "$")])
+        argv = ["--no-index", flag, "a0=" + spec + ";e=0.2", "--info-file", "{dir}/info.txt", "-o", "{dir}/o1.fastq"]
+        reads = []
+        for i in range(8):
+            occ = list(ad)
+            for _e in range(rng.choice([1, 1, 2])):
+                j = rng.randrange(1, len(occ) - 1)
+                if rng.random() < 0.5:
+                    del occ[j]
+                else:
+                    occ.insert(j, rng.choice("ACGT"))
+            occ = "".join(occ)
+            left, right = pipe.rs(rng, rng.randint(0, 8)), pipe.rs(rng, rng.randint(0, 8))
+            if "^" in spec:
+                left = ""
+            if "$" in spec:
+                right = ""
+            s_ = left + occ + right
+            if "rightmost" in spec and rng.random() < 0.5:
+                s_ = left + occ + pipe.rs(rng, 3) + ad + right
+            reads.append((f"r{i}", s_, "I" * len(s_)))
+        cases.append(dict(argv=argv, paired=False, reads1=reads, reads2=None, with_qual=True, interleaved_in=False))
+    for case, res, real, model in pipe.run_cases(ctx, cases):
+        ctx.count("directed-net-indel")
+        oracle(ctx, case, res, real)
 
 
 def extended_search(ctx):
